@@ -4,7 +4,11 @@ go 1.20
 
 require github.com/multiversx/mx-chain-storage-go v0.0.0
 
-require github.com/hashicorp/golang-lru v0.6.0 // indirect
+require (
+	github.com/golang/snappy v0.0.4 // indirect
+	github.com/hashicorp/golang-lru v0.6.0 // indirect
+	github.com/syndtr/goleveldb v1.0.1-0.20220721030215-126854af5e6d // indirect
+)
 
 require (
 	github.com/denisbrodbeck/machineid v1.0.1 // indirect
